@@ -8,17 +8,17 @@ CONSTANTS
   OrigTtl = 4
   OrigTtlAlt = 9
   RecTtls <- MC_RecTtls
-  Steps <- MCH3_Steps
-  MaxMono = 10
-  MaxCalls = 3
+  Steps <- MCH_Steps
+  MaxMono = 12
+  MaxCalls = 2
   ClkStarts <- MCH_Starts
-  ArgSet <- MCH3_Args
+  ArgSet <- MCH_Args
   RRV <- MCH_RRV
   SIGV <- MCH_SIGV
   KEYV <- MCH_KEYV
   NameCaseSigned = TRUE
   CacheRule = "required"
-  CfgMin = 0
+  CfgMin = 10
   CfgMax = 99
   Deviation = "none"
 INVARIANTS TypeOK C06_SecureOnlyGenuine C06_SecureOnlyInWindow C06_TtlBound C06_StrayNeverSecure C06_FreshWithinRequirement
